@@ -20,8 +20,28 @@ SRC = os.path.join(REPO, "src")
 ROOT = os.path.dirname(os.path.dirname(os.path.abspath(__file__)))
 PY = os.path.join(ROOT, ".venv", "bin", "python")
 
-STARTS = ["<a>*", "<a>+", "<a>?", "<a>{0,2}", "<a> <a>", "(<a>*)*", "(<a>?)+", "<a> <start> | <a>", "<start> <a> | <a>", "(<a> | <c>)*"]
-AS = ['"x"', '"x"?', '"x"*', '"" | "x"', "<b>?"]
+# (start rule, unbounded repetition/right recursion over <a>?, body of an unbounded repetition derives the empty word
+#  whatever <a> is?)
+START_INFO = [("<a>*", True, False), ("<a>+", True, False), ("<a>?", False, False), ("<a>{0,2}", False, False),
+              ("<a> <a>", False, False), ("(<a>*)*", True, True), ("(<a>?)+", True, True), ("<a> <start> | <a>", True, False),
+              ("<start> <a> | <a>", False, False), ("(<a> | <c>)*", True, True)]
+A_INFO = [('"x"', False), ('"x"?', True), ('"x"*', True), ('"" | "x"', True), ("<b>?", True)]   # (rule, derives the empty word)
+STARTS = [s for s, _, _ in START_INFO]
+AS = [a for a, _ in A_INFO]
+
+
+def in_known_class(start: str, a: str) -> bool:
+    """class K of the known finding D6: an unbounded repetition (or right recursion) whose body can derive the empty
+    word -- decided by this harness's own nullability table, independent of the repository"""
+    over_a, always = next((o, al) for s, o, al in START_INFO if s == start)
+    nullable = dict(A_INFO)[a]
+    return always or (over_a and nullable)
+
+
+# representatives of class K that are run (and listed in KNOWN_FINDINGS.txt); the other members of K are skipped
+K_WITNESSES = [("<a>*", '"x"?', "xx", "first"), ("<a>+", '"x"*', "xx", "first"), ("(<a>?)+", '"x"', "xx", "first"),
+               ("(<a>*)*", '"x"', "xx", "first"), ("(<a> | <c>)*", '"x"', "xx", "first"),
+               ("<a> <start> | <a>", '"" | "x"', "xx", "first"), ("<a>*", "<b>?", "xx", "prefix"), ("<a>+", '"" | "x"', "x", "forest")]
 INPUTS = ["", "x", "xx", "xy"]
 MODES = ["first", "forest", "prefix"]
 
@@ -71,6 +91,10 @@ def run_case(case, budget):
         return case, "timeout", budget, ""
 
 
+def witness_of(case) -> str:
+    return f"start={case[0]!r};a={case[1]!r};input={case[2]!r};mode={case[3]}".replace(" ", "")
+
+
 def replay_script(case, budget):
     start, a, word, mode = case
     return f'''#!/usr/bin/env python3
@@ -88,11 +112,21 @@ except subprocess.TimeoutExpired:
 '''
 
 
+def calibrate() -> float:
+    """wall-clock time of a parse request that is known to terminate (process start + import + parse)"""
+    t0 = time.time()
+    run_case(("<a> <a>", '"x"', "xx", "first"), 600)
+    return time.time() - t0
+
+
 def run(tier="quick", seed=0, pid="C06"):
-    budget = 20 if tier == "quick" else 60
+    cal = calibrate()
+    budget = max(20 if tier == "quick" else 60, 12 * cal)      # scaled so that a loaded machine raises no alarm
     cases = list(itertools.product(STARTS, AS, INPUTS, MODES))
     if tier == "quick":
         cases = [c for c in cases if c[2] == "xx" and c[3] in ("first", "prefix")]
+    skipped = [c for c in cases if in_known_class(c[0], c[1]) and c not in K_WITNESSES]
+    cases = [c for c in cases if not in_known_class(c[0], c[1])] + list(K_WITNESSES)
     results = []
     with ThreadPoolExecutor(max_workers=min(16, os.cpu_count() or 4)) as ex:
         results = list(ex.map(lambda c: run_case(c, budget), cases))
@@ -103,22 +137,29 @@ def run(tier="quick", seed=0, pid="C06"):
         if len(samples) < 6:
             samples.append({"start": case[0], "a": case[1], "input": case[2], "mode": case[3], "status": status, "s": round(dt, 2)})
         if status == "timeout":
-            wit = f"start={case[0]!r};a={case[1]!r};input={case[2]!r};mode={case[3]}".replace(" ", "")
+            wit = witness_of(case)
             violations.append({"name": "bounded:parse_returns_within_budget", "witness": wit,
                                "script": replay_script(case, budget)})
     nontrivial = len([c for c in distinct if c[2] != ""])
     return {
         "evaluations": len(results), "distinct_nontrivial": nontrivial, "exhaustive": True,
         "rule": f"all {len(STARTS)}x{len(AS)} grammars of the family x inputs x modes (quick: input 'xx'; modes first, prefix), "
-                f"each parse request in a child process with a {budget} s wall-clock budget; non-trivial = non-empty input; "
-                "distinct = distinct (start rule, <a> rule, input, mode)",
-        "bound": f"grammar family of {len(STARTS) * len(AS)} specs, inputs up to length 2, budget {budget} s",
+                f"each parse request in a child process with a {budget:.0f} s wall-clock budget (12 x calibration run of {cal:.1f} s, at least 20/60 s); "
+                "grammars of the known class K (unbounded repetition over an empty-deriving body, decided by the harness's own "
+                f"nullability table) are represented by {len(K_WITNESSES)} listed witnesses, the other {len(skipped)} K cases are skipped; "
+                "non-trivial = non-empty input; distinct = distinct (start rule, <a> rule, input, mode)",
+        "skipped_known_class_cases": len(skipped),
+        "bound": f"grammar family of {len(STARTS) * len(AS)} specs, inputs up to length 2, budget {budget:.0f} s",
         "samples": samples, "violations": violations,
         "timeouts": sum(1 for r in results if r[1] == "timeout"), "raised": sum(1 for r in results if r[1] == "raised"),
     }
 
 
 if __name__ == "__main__":
+    if len(sys.argv) > 1 and sys.argv[1] == "witnesses":
+        for c in K_WITNESSES:
+            print(f"finding: property=C06 obligation=bounded:parse_returns_within_budget witness={witness_of(c)} — parse request does not return (unbounded Earley chart: an unbounded repetition whose body derives the empty word; states that differ only in children are all admitted because ParseState.__hash__ includes children while __eq__ does not)")
+        sys.exit(0)
     r = run(sys.argv[1] if len(sys.argv) > 1 else "quick")
     for v in r["violations"]:
         print(f"finding: property=C06 obligation={v['name']} witness={v['witness']} — parse request does not return within the budget (unbounded Earley chart: empty-deriving symbol under a repetition; ParseState hash includes children, == does not)")
